@@ -63,6 +63,17 @@ pub fn replay(cases: &str, verdicts: &str) {
                     let ok = got.as_ref().map(|g| g.len() == x2.len() && g.iter().zip(&x2).all(|(p, q)| p.is_finite() && (p - q).abs() <= 2f64.powi(-30) * sc)).unwrap_or(false);
                     v.check(ok, name, &format!("{} scaled", class), &json!({"case": c, "scale_a_log2": sa, "scale_b_log2": sb}), json!(got.as_ref().map(|g| fjs(g))));
                 }
+                // two DIFFERENT tiny systems one after the other (the same equations in reversed order: same solution): the second is
+                // solved on its own merits, however close - in absolute terms - its matrix is to the one just factorised
+                if sa <= -600 && n >= 2 {
+                    let ar: Vec<f64> = (0..n).rev().flat_map(|i| a2[i * n..(i + 1) * n].to_vec()).collect();
+                    let br: Vec<f64> = (0..n).rev().flat_map(|i| b2[i * k..(i + 1) * k].to_vec()).collect();
+                    for (name, got) in entry_points(&ar, &br, n, k) {
+                        let sc = x2.iter().fold(f, |m, t| m.max(t.abs()));
+                        let ok = got.as_ref().map(|g| g.len() == x2.len() && g.iter().zip(&x2).all(|(p, q)| p.is_finite() && (p - q).abs() <= 2f64.powi(-30) * sc)).unwrap_or(false);
+                        v.check(ok, name, &format!("{} scaled, equations reversed, right after the first system", class), &json!({"case": c, "scale_a_log2": sa, "scale_b_log2": sb}), json!(got.as_ref().map(|g| fjs(g))));
+                    }
+                }
                 let inv2: Vec<f64> = inv.iter().map(|t| t / fa).collect();
                 for (name, got) in inverse_points(&a2, n) {
                     let sc = inv2.iter().fold(1.0 / fa, |m, t| m.max(t.abs()));
